@@ -126,6 +126,7 @@ def pass_interface():
             problems.append("module of pass %s not found" % e)
             continue
         text = re.sub(r"//[^\n]*", "", text)
+        text = text.split("#[cfg(test)]")[0]          # the unit tests drive the pass with a runner of their own
         names = set(re.findall(r"(\w+)\s*:\s*&mut dyn AnalysisContext", text))
         if not names:
             problems.append("pass %s: no `&mut dyn AnalysisContext` parameter found" % e)
@@ -194,10 +195,82 @@ def make_projects(ctx, base, n_lattice, n_sampled, big_counts=()):
     return projects, truths, lattice_idx, sampled_idx, ncorpus
 
 
+STATS = {"excused": set()}
+
+
+def def_ranges(project):
+    """(kind, name) -> (file named on the command line, first byte, end byte) by a
+    textual scan of the user files (generated sources carry no comments)."""
+    out = {}
+    for a in project.argv:
+        text = project.files.get(a)
+        if text is None:
+            continue
+        ms = list(DEF_RE.finditer(text))
+        stop = text.find("component main")
+        for j, m in enumerate(ms):
+            end = ms[j + 1].start() if j + 1 < len(ms) else (stop if stop > m.start() else len(text))
+            out[(m.group(1), m.group(2))] = (a, len(text[:m.start()].encode()), len(text[:end].encode()))
+    return out
+
+
+def reported_drops(project, truth):
+    """The errors of the parser stage that are located in a user file: a
+    definition may be missing from the library only if such an error (which
+    conservation requires to be displayed) accounts for it.
+    -> (set of (file, byte offset) of primary labels of error-level parser reports)"""
+    locs = set()
+    if truth.bad:
+        return locs
+    for r in truth.t["parse_reports"]:
+        if r["level"] != "error":
+            continue
+        for l in r["primary"]:
+            for a in project.argv:
+                if l.get("path") and os.path.abspath(l["path"]) == os.path.abspath(os.path.join(project.dir, a)):
+                    locs.add((a, l["start"]))
+    return locs
+
+
+def judge_definitions(project, truth, want, got):
+    """want: the (kind, name) pairs written into the user files (sorted list);
+    got: definitions analysed (a list, possibly with repetitions).  Every
+    written definition has to be analysed exactly once, unless the parser stage
+    reported an error inside that definition (it is dropped with the error:
+    syntax_sugar_remover.rs) or an error located in its file while no
+    definition of that file was analysed (the file failed to parse); nothing
+    else may be analysed.  -> list of complaints"""
+    what = []
+    extra = sorted({x for x in got if x not in want})
+    twice = sorted({x for x in got if got.count(x) > 1})
+    missing = [x for x in want if x not in got]
+    if missing:
+        ranges = def_ranges(project)
+        locs = reported_drops(project, truth)
+        files_analysed = {ranges[x][0] for x in got if x in ranges}
+        unexcused = []
+        for x in missing:
+            if x not in ranges:
+                unexcused.append(x)
+                continue
+            f, b, e = ranges[x]
+            inside = any(lf == f and b <= off < e for lf, off in locs)
+            whole_file = f not in files_analysed and any(lf == f for lf, _ in locs)
+            if not (inside or whole_file):
+                unexcused.append(x)
+            else:
+                STATS["excused"].add((project.tag, x, "error inside the definition" if inside else "file failed to parse"))
+        missing = unexcused
+    if missing or extra or twice:
+        what.append("not a permutation of the definitions of the user files: missing without a reported error %s, "
+                    "not a user definition %s, twice %s" % (missing[:4], extra[:4], twice[:4]))
+    return what
+
+
 def check_user_definitions(projects, truths, indep, runs, fail):
     """Hypothesis `analysis_order` of the theorems, checked without trusting the
-    binary's log or the in-process parse.  Appends to `fail`; returns the number
-    of runs checked."""
+    binary's log or the definition set of the in-process parse.  Appends to
+    `fail`; returns the number of runs checked."""
     static = {}
     for i, p in enumerate(projects):
         want = indep[i]
@@ -206,10 +279,8 @@ def check_user_definitions(projects, truths, indep, runs, fail):
         what = []
         t = truths[i]
         if not t.bad:
-            tk = sorted((d["kind"], d["name"]) for d in t.defs if d["user"])
-            if tk != want:
-                what.append("the in-process parse yields the user definitions %s, the sources define %s"
-                            % ([x for x in tk if x not in want][:4] or tk[:6], [x for x in want if x not in tk][:4] or want[:6]))
+            tk = [(d["kind"], d["name"]) for d in t.defs if d["user"]]
+            what += ["user definitions of the in-process parse: " + w for w in judge_definitions(p, t, want, tk)]
         if "user_defs" in p.meta:          # generated: the record and the text must agree (self-check of the generator)
             sc = sorted((k, n) for k, n in scan_user_defs(p))
             if sc != want:
@@ -223,13 +294,9 @@ def check_user_definitions(projects, truths, indep, runs, fail):
             continue
         checked += 1
         what = list(static.pop(r["p"], []))
-        got = sorted(e2e.analysis_order(r["events"]))
-        if got != want and r.get("exit") in (0, 1):
-            missing = [x for x in want if x not in got]
-            extra = [x for x in got if x not in want]
-            twice = sorted({x for x in got if got.count(x) > 1})
-            what.append("the analysis order logged by the binary is not a permutation of the definitions of the user files: "
-                        "not analysed %s, analysed but not a user definition %s, analysed twice %s" % (missing[:4], extra[:4], twice[:4]))
+        if r.get("exit") in (0, 1):
+            what += ["analysis order logged by the binary: " + w
+                     for w in judge_definitions(projects[r["p"]], truths[r["p"]], want, e2e.analysis_order(r["events"]))]
         if what:
             if r.get("fail"):
                 r["fail"] += what          # the same list object as the entry in `fail`
@@ -239,8 +306,17 @@ def check_user_definitions(projects, truths, indep, runs, fail):
     return checked
 
 
+def expected_order(project, truth, want, logged):
+    """The order handed to the model: the logged one if it passes
+    judge_definitions, otherwise the recorded definitions."""
+    if want is None or not judge_definitions(project, truth, want, logged):
+        return logged
+    return list(want)
+
+
 def run(ctx, proofs):
     quick = ctx.tier == "quick"
+    STATS["excused"].clear()
     cli = common.build_cli()
     common.build_harness("e2e")
     common.build_model("e2e")
@@ -283,11 +359,10 @@ def run(ctx, proofs):
 
         def order_hook(r, logged):
             # the model runs under the hypothesis `analysis_order`, established without the binary
-            want = indep[r["p"]]
-            if want is not None and sorted(logged) != want:
+            order = expected_order(projects[r["p"]], truths[r["p"]], indep[r["p"]], logged)
+            if order is not logged:
                 r["order_substituted"] = True
-                return list(want)
-            return logged
+            return order
         dis, fail = e2e.evaluate(cli, projects, truths, runs, order_hook)
         order_checked = check_user_definitions(projects, truths, indep, runs, fail)
         # witnesses of the repaired defects must show their findings
@@ -380,9 +455,13 @@ def run(ctx, proofs):
             "report_id_histogram": id_hist, "levels_seen": sorted(levels_seen), "label_less_reports": labelless,
             "projects_without_ground_truth": bad_truth,
             "analysis_order_checked_runs": order_checked,
-            "analysis_order_check": "on every run the logged analysis order is compared (as a multiset) with the (kind, name) pairs the "
-                                    "generator wrote into the files named on the command line (corpus: expect.user_defs); the in-process "
-                                    "parse's user keys and a textual scan of the sources are compared with the same record",
+            "analysis_order_check": "on every run the analysis order logged by the binary, and the user keys of the in-process parse, are "
+                                    "compared with the (kind, name) pairs the generator wrote into the files named on the command line "
+                                    "(corpus: expect.user_defs): each exactly once, nothing else; a written definition may be missing only "
+                                    "if the parser stage reported an error located inside its text, or in its file while no definition of "
+                                    "that file was analysed; the generator's record is cross-checked by a textual scan of the sources",
+            "definitions_dropped_with_reported_error": [list(x) for x in sorted(STATS["excused"])][:20],
+            "definitions_dropped_with_reported_error_count": len(STATS["excused"]),
             "runs_with_substituted_order": len([r for r in runs if r.get("order_substituted")]),
             "runs_by_displayed_count_255plus": {str(k): v for k, v in sorted(big_counts.items())},
             "pass_interface": iface,
@@ -424,7 +503,7 @@ def replay(ctx, rep):
         indep = [independent_user_defs(p)]
 
         def order_hook(run, logged):
-            return list(indep[0]) if indep[0] is not None and sorted(logged) != indep[0] else logged
+            return expected_order(p, t, indep[0], logged)
         dis, fail = e2e.evaluate(cli, [p], [t], [r], order_hook)
         check_user_definitions([p], [t], indep, [r], fail)
         print("argv:", p.argv, "options:", {k: r[k] for k in ("level", "allow", "verbose", "sarif")})
